@@ -333,6 +333,54 @@ pub fn check_mi(c: &MiCase, st: &mut Stats) -> Result<(), String> {
             }
         }
     }
+    // (g) a caller that opts out of the ordering rule (not_ignore) but asks for validation: an integrity attribute that
+    // sits behind FINGERPRINT (or MESSAGE-INTEGRITY behind MESSAGE-INTEGRITY-SHA256) is returned to it, so it must have
+    // been checked: right key accepted, wrong key and a damaged MAC refused
+    if c.sample_seed % 4 == 0 {
+        let k = |fault| MacSpec::Keyed { key: c.key.clone(), fault };
+        let tails: [Vec<RAttr>; 3] = [
+            vec![RAttr::Fp(FpSpec::Computed(Fault::Correct)), RAttr::Mi(k(Fault::Correct))],
+            vec![RAttr::Fp(FpSpec::Computed(Fault::Correct)), RAttr::MiSha256(k(Fault::Correct))],
+            vec![RAttr::MiSha256(k(Fault::Correct)), RAttr::Mi(k(Fault::Correct))],
+        ];
+        let tail = &tails[(c.sample_seed / 4 % 3) as usize];
+        let mut attrs = c.prefix.clone();
+        attrs.extend(tail.iter().cloned());
+        let m2 = RMsg { method: c.method, class: c.class, tid: c.tid, attrs };
+        if let Ok(p2) = prepare(&m2) {
+            let r2 = ref_encode(&p2.model, &mut Noise::zero());
+            let b2 = lib_encode(&p2.lib, r2.bytes.len(), None).map_err(|e| format!("encode of an out-of-order tail failed: {}", e))?;
+            let opt = |key: &stun_rs::HMACKey| DecOpts { key: Some(key.clone()), validation: true, not_ignore: true, with_ctx: true, ..DecOpts::default() };
+            let dec = |b: &[u8], key: &stun_rs::HMACKey| match guard(|| crate::codec::lib_decode(b, &opt(key))) {
+                Guard::Ok(r) => r.is_ok(),
+                _ => false,
+            };
+            st.class("opt-out-tail");
+            if !dec(&b2, &lkey) {
+                return Err("not_ignore + validation: the untampered message with an integrity attribute behind FINGERPRINT / SHA256 is refused under the right key".into());
+            }
+            for (what, wk) in wrong_keys(&c.key, c.sample_seed) {
+                let Ok(wkey) = conv::lib_key(&wk) else { continue };
+                if wkey.as_bytes() == lkey.as_bytes() {
+                    continue;
+                }
+                st.evaluations += 1;
+                if dec(&b2, &wkey) {
+                    return Err(format!("not_ignore + validation: message with an integrity attribute behind FINGERPRINT / SHA256 accepted under a wrong key ({})", what));
+                }
+            }
+            // damage the last MAC (the attribute the ordering rule would have ignored)
+            let last = r2.tlv.last().unwrap();
+            for bit in [0usize, 7, 8 * (last.val_len / 2) + 3, 8 * last.val_len - 1] {
+                let mut mb = b2.clone();
+                mb[last.val_off + bit / 8] ^= 0x80 >> (bit % 8);
+                st.evaluations += 1;
+                if dec(&mb, &lkey) {
+                    return Err(format!("not_ignore + validation: bit {} of the MAC behind FINGERPRINT / SHA256 flipped and the message is still accepted", bit));
+                }
+            }
+        }
+    }
     if st.wants_sample() && !c.prefix.is_empty() {
         let mut s = sample_msg(&p.model, &bytes);
         s["key"] = json!(format!("{:?}", c.key));
